@@ -584,8 +584,43 @@ Definition no_ident_prefix (pfx : text) (ts : list tok) : bool :=
   forallb (fun t => match t with TId s => negb (prefixb pfx s) | _ => true end) ts.
 
 (* ---------------------------------------------------------------------------------------------- *)
+(* 5b. Line comments: outside literals `--` starts a comment in all eight dialects.  The compiler   *)
+(*     writes comments only as whole lines ("-- Interacting with table ..."); a `--` after other     *)
+(*     text on its line (e.g. from `-` applied to an expression that starts with `-`) silently        *)
+(*     comments out the rest of that line.                                                            *)
+(* ---------------------------------------------------------------------------------------------- *)
+Inductive cmode :=
+| CNorm (at_start : bool) (dash : option bool)   (* dash = Some b: the previous character was `-`; b: it began its line *)
+| CStr (q : N) | CEsc (q : N) | CCom.
+
+Fixpoint cs_scan (qs : qstyle) (m : cmode) (l : text) : bool :=
+  match l with
+  | [] => true
+  | c :: r =>
+      match m with
+      | CCom => if c =? 10 then cs_scan qs (CNorm true None) r else cs_scan qs CCom r
+      | CStr q => if c =? q then cs_scan qs (CNorm false None) r
+                  else if (c =? 92) && bs_active qs q then cs_scan qs (CEsc q) r
+                  else cs_scan qs (CStr q) r
+      | CEsc q => cs_scan qs (CStr q) r
+      | CNorm st dash =>
+          if c =? 45 then
+            match dash with
+            | Some first_began_line => if first_began_line then cs_scan qs CCom r else false
+            | None => cs_scan qs (CNorm false (Some st)) r
+            end
+          else if is_quote c then cs_scan qs (CStr c) r
+          else if c =? 10 then cs_scan qs (CNorm true None) r
+          else if (c =? 32) || (c =? 9) || (c =? 13) then cs_scan qs (CNorm st None) r
+          else cs_scan qs (CNorm false None) r
+      end
+  end.
+Definition comments_whole_line (qs : qstyle) (t : text) : bool := cs_scan qs (CNorm true None) t.
+
+(* ---------------------------------------------------------------------------------------------- *)
 (* 6. The verdict the harness asks for: bit 1 balanced, 2 lexes and brackets build a tree, 4 scoped,
-      8 no placeholder, 16 no identifier with the generator's variable prefix.  31 = all good.       *)
+      8 no placeholder, 16 no identifier with the generator's variable prefix, 32 line comments only
+      as whole lines.  63 = all good.                                                                *)
 (* ---------------------------------------------------------------------------------------------- *)
 Definition b2n (b : bool) (w : N) : N := if b then w else 0.
 Definition judge_text (engine : string) (pfx : text) (ext : list text) (t : text) : N :=
@@ -595,6 +630,7 @@ Definition judge_text (engine : string) (pfx : text) (ext : list text) (t : text
   b2n (match toks with Some ts => match build ts [] [] with Some _ => true | None => false end | None => false end) 2 +
   b2n (scoped qs ext t) 4 +
   b2n (no_placeholder qs t) 8 +
-  b2n (match toks with Some ts => no_ident_prefix pfx ts | None => false end) 16.
+  b2n (match toks with Some ts => no_ident_prefix pfx ts | None => false end) 16 +
+  b2n (comments_whole_line qs t) 32.
 Definition judge (engine pfx : string) (ext : list string) (s : string) : N :=
   judge_text engine (bytes pfx) (map bytes ext) (bytes s).
